@@ -235,3 +235,97 @@ for _mode in ('3d', '2d', 'irregular'):
     _cls = type('MakeHeader_' + _mode, (MakeHeader,), dict(mode=_mode))
     register(_cls, 'conversion_utils.py::make_header', ['C03', 'C05', 'C19'] + (['C09'] if _mode == '2d' else []) + (['C08'] if _mode == 'irregular' else []),
              _cfgs, modes=('file',), tag=_mode)
+
+
+# ---------------------------------------------------------------------------------------------
+# reader side: header parsing
+
+def hdr_u32(off):
+    """unsigned 32-bit word at byte `off` of the main file (uninterpreted; shared with pyvc's unpack model)"""
+    return mk_int(BM.U32(z3.IntVal(BM.K_FILE), z3.IntVal(off)))
+
+
+def hdr_s32(off):
+    return wrap_int(hdr_u32(off), 32, signed=True)
+
+
+def mk_parsing_reader(c, prog, newer_than_016=True):
+    cls = prog.klass('SgzReader')
+    vcls = prog.klass('SeismicZfpVersion')
+    M = c.sym_int('fvM', lo=0, hi=2047, name='file_version.major')
+    m = c.sym_int('fvm', lo=0, hi=1023, name='file_version.minor')
+    p = c.sym_int('fvp', lo=0, hi=1023, name='file_version.patch')
+    dev = c.sym_bool('fvdev', name='file_version.dev')
+    ver = SObj(vcls, dict(major=M, minor=m, patch=p, changes_exist=dev, encoding=S.enc_version(M, m, p, dev)))
+    o = SObj(cls, dict(headerbytes=BM.file_bytes(BM.K_FILE, 0, 2 * BLK), file_version=ver, n_header_blocks=2))
+    o.ver = (M, m, p, dev)
+    for off in (4, 8, 12, 16, 20, 24, 28, 32, 36, 40, 44, 48, 52, 56, 60, 64, 68, 72):
+        w = BM.U32(z3.IntVal(BM.K_FILE), z3.IntVal(off))
+        c.assume_raw(z3.And(w >= 0, w < 2 ** 32))
+    return o
+
+
+@fuc('read.py::SgzReader._parse_coordinates', props=['C05', 'C03'])
+class ParseCoordinates(Contract):
+    """axes regenerated from the header words: origin + k*step per axis, wrapped to int32 for the line axes,
+    sample interval in microseconds for files newer than 0.1.6 (milliseconds before)"""
+    may_raise = ()
+
+    def inputs(self, c):
+        rd = mk_parsing_reader(c, c.ex.prog)
+        return dict(self=rd)
+
+    def pre(self, c, a):
+        # Conf(F): counts < 2^29, non-zero steps; integer-header files (no float64 override) handled in the 'double' variant
+        return [ge(hdr_u32(4), 2), lt(hdr_u32(4), 2 ** 29), ge(hdr_u32(8), 2), lt(hdr_u32(8), 2 ** 29), ge(hdr_u32(12), 2), lt(hdr_u32(12), 2 ** 29),
+                ops_cmp('!=', hdr_u32(32), 0), ops_cmp('!=', hdr_u32(36), 0), ge(hdr_u32(28), 1),
+                mk_bool(BM.F64(z3.IntVal(BM.K_FILE), z3.IntVal(92)) == 0)]
+
+    def post(self, c, a, result):
+        c.ensure(mk_bool(isinstance(result, tuple) and len(result) == 3), 'three_axes')
+        zs, xl, il = result
+        for name, arr, o0, ostep, ocount in (('xlines', xl, 20, 32, 8), ('ilines', il, 24, 36, 12)):
+            c.ensure(mk_bool(isinstance(arr, SArray)) and eq(arr.shape[0], hdr_u32(ocount)), f'{name}.count')
+            k = c.sym_int('k', lo=0, name='axis_index')
+            c.assume(lt(k, hdr_u32(ocount)))
+            c.ensure(eq(arr.fn((k,)), wrap_int(add(hdr_u32(o0), mul(k, hdr_u32(ostep))), 32, signed=True)), f'{name}.value')
+        c.ensure(mk_bool(isinstance(zs, SArray)) and eq(zs.shape[0], hdr_u32(4)), 'zslices.count')
+        k = c.sym_int('kz', lo=0, name='sample_index')
+        c.assume(lt(k, hdr_u32(4)))
+        M, m, p, dev = a['self'].ver
+        newer = S.version_lex_lt((0, 1, 6, False), (M, m, p, dev))
+        z = zs.fn((k,))
+        us = mk_float(zreal(hdr_s32(16)) + zreal(k) * zreal(hdr_u32(28)) / 1000)
+        ms = mk_float(zreal(hdr_s32(16)) + zreal(k) * zreal(hdr_u32(28)))
+        c.ensure(Implies(newer, mk_bool(zreal(z) == zreal(us))), 'zslices.value_microsecond_interval_after_0.1.6')
+        c.ensure(Implies(Not(newer), mk_bool(zreal(z) == zreal(ms))), 'zslices.value_millisecond_interval_up_to_0.1.6')
+
+
+@fuc('read.py::SgzReader._parse_dimensions', props=['C03', 'C19'])
+class ParseDimensions(Contract):
+    may_raise = ()
+
+    def inputs(self, c):
+        return dict(self=mk_parsing_reader(c, c.ex.prog))
+
+    def pre(self, c, a):
+        return [ops_cmp('!=', hdr_s32(40), 0)]
+
+    def post(self, c, a, result):
+        n_samples, n_xlines, n_ilines, rate, blockshape = result
+        c.ensure(And(eq(n_samples, hdr_u32(4)), eq(n_xlines, hdr_u32(8)), eq(n_ilines, hdr_u32(12))), 'dimensions')
+        c.ensure(And(*[eq(blockshape[k], hdr_u32(44 + 4 * k)) for k in range(3)]), 'blockshape')
+        code = hdr_s32(40)
+        # rate codec: positive code = bits per voxel, negative code = reciprocal
+        c.ensure(mk_bool(z3.If(zint(code) > 0, zreal(rate) == zreal(code), zreal(rate) * (-zreal(code)) == 1)), 'rate_decoding')
+
+
+@fuc('read.py::SgzReader._parse_data_sizes', props=['C03'])
+class ParseDataSizes(Contract):
+    may_raise = ()
+
+    def inputs(self, c):
+        return dict(self=mk_parsing_reader(c, c.ex.prog))
+
+    def post(self, c, a, result):
+        c.ensure(And(eq(result[0], hdr_u32(56)), eq(result[1], hdr_u32(60)), eq(result[2], hdr_u32(64))), 'words_56_60_64')
